@@ -454,7 +454,7 @@ Proof.
 Qed.
 
 Definition cfg_all : cfg :=
-  {| c_run_ignored := RIYes; c_opts := {| o_ignore := None; o_sample_count := None |}; c_filter := fun _ => true |}.
+  {| c_run_ignored := RIYes; c_opts := {| o_ignore := None; o_sample_count := None |}; c_filter := fun _ => true; c_threads := [] |}.
 
 Lemma leaf_ignored_all : forall o, leaf_ignored cfg_all o = false.
 Proof. intros [[[[]|] sc]|]; reflexivity. Qed.
@@ -500,7 +500,7 @@ Definition w_fn_group : group_entry :=
   {| g_id := 11; g_meta := {| m_display := w_f; m_raw := w_f; m_modpath := w_c; m_line := 4; m_col := 1; m_opts := None |};
      g_generic := Some [[ {| ge_id := 1; ge_runner := RPlain; ge_kind := GType [105] |} ]] |}.
 Definition cfg_plain : cfg :=
-  {| c_run_ignored := RINo; c_opts := {| o_ignore := None; o_sample_count := None |}; c_filter := fun _ => true |}.
+  {| c_run_ignored := RINo; c_opts := {| o_ignore := None; o_sample_count := None |}; c_filter := fun _ => true; c_threads := [] |}.
 
 Definition runs_a (l : list xcase) : bool := existsb (fun x => fst (fst x) =? 0) l.
 
